@@ -62,7 +62,7 @@ OpHolds(op, present, vv, aa) ==
       [] op = "dash" -> present /\ (vv = aa \/ StartsWith(vv, aa \o <<45>>))
       [] op = "pre"  -> present /\ aa # <<>> /\ StartsWith(vv, aa)
       [] op = "suf"  -> present /\ aa # <<>> /\ EndsWith(vv, aa)
-      [] op = "sub"  -> present /\ aa # <<>> /\ Contains(vv, aa)
+      [] op = "sub"  -> present /\ aa # <<>> /\ HasInfix(vv, aa)
 
 AttrHolds(d, env, s, i) ==
     LET idx == AttrIdx(d, env, s.ns, s.name, i)
